@@ -59,7 +59,10 @@ func refRangeProof(q, N, c, NTilde, h1, h2, m, r *big.Int, k rangeMasks) *mta.Ra
 	return &mta.RangeProofAlice{Z: z, U: u, W: w, S: s, S1: s1, S2: s2}
 }
 
-type bobMasks struct{ Alpha, Rho, Sigma, Tau, RhoPrm, Beta, Gamma *big.Int }
+type bobMasks struct {
+	Alpha, Rho, Sigma, Tau, RhoPrm, Beta, Gamma *big.Int
+	NegU                                        bool // the mask point is sent negated: U = -(alpha*G)
+}
 
 func defaultBobMasks(q, N, NTilde *big.Int) bobMasks {
 	q3 := pow(q, 3)
@@ -83,6 +86,9 @@ func refBobProof(session []byte, cv curveRef, N, NTilde, h1, h2, c1, c2, x, y, r
 		e = common.SHA512_256i_TAGGED(session, N, G, c1, c2, z, zPrm, t, v, w)
 	} else {
 		u = crypto.ScalarBaseMult(cv.EC, new(big.Int).Mod(k.Alpha, q))
+		if k.NegU {
+			u = crypto.ScalarBaseMult(cv.EC, new(big.Int).Mod(new(big.Int).Neg(k.Alpha), q))
+		}
 		e = common.SHA512_256i_TAGGED(session, N, G, X.X(), X.Y(), c1, c2, u.X(), u.Y(), z, zPrm, t, v, w)
 	}
 	e.Mod(e, q)
